@@ -6,3 +6,4 @@ import AGV.Props.C28
 #print axioms AGV.Props.C28.c28_result_lookup
 #print axioms AGV.Props.C28.c28_split_disjoint
 #print axioms AGV.Props.C28.c28_load_split
+#print axioms AGV.Props.C28.c28_live
